@@ -1,3 +1,4 @@
-# location index 63 is always reserved for "Anywhere"
+# "Anywhere" is ALWAYS location 64 in the 1-based location IDs used by triggers and RichLocation.index
+# (it is stored in slot 63 of the 0-based MRGN array)
 MAX_LOCATIONS = 255
-ANYWHERE_LOCATION_ID = 63
+ANYWHERE_LOCATION_ID = 64
